@@ -761,6 +761,88 @@ def signature_cells(ctx):
                 ctx.outcome("after-removal-silent")
 
 
+def link_report_cells(ctx):
+    """a re-assigned '.' link is itself reported, once, to a handler of
+    every signature - from None as well as from another object - exactly
+    where observe reports it; a ':' link is not; and names are the same
+    names with blanks around them"""
+    def mk(nargs, calls):
+        if nargs == 0:
+            def h():
+                calls.append("?")
+        elif nargs == 1:
+            def h(new):
+                calls.append("?")
+        elif nargs == 2:
+            def h(name, new):
+                calls.append(name)
+        elif nargs == 3:
+            def h(obj, name, new):
+                calls.append(name)
+        else:
+            def h(obj, name, old, new):
+                calls.append(name)
+        return h
+    for name in ("child.value", "child:value", " child.value", "child.value ",
+                 " child:value "):
+        for nargs in range(5):
+            for start in ("none", "object"):
+                case = {"link_report": nargs, "name": name, "start": start}
+                ctx.case(case)
+                ctx.ev()
+                pool = G.make_pool()
+                root, n1, n2 = pool
+                if start == "object":
+                    root.child = n2
+                calls, ocalls = [], []
+                h = mk(nargs, calls)
+
+                def oh(ev):
+                    ocalls.append(ev.name)
+                root.on_trait_change(h, name)
+                root.observe(oh, name.strip())
+                hist = [["link_report", nargs, name, start]]
+                for new in (n1, None, n2, n1):
+                    calls.clear()
+                    ocalls.clear()
+                    ctx.tr()
+                    root.child = new
+                    want = len(ocalls)
+                    if want != (1 if "." in name else 0):
+                        ctx.violation("C16:link-report:observe", "observe "
+                                      "reported the link change %d times"
+                                      % want, history=hist)
+                    if nargs in (1, 2) and new is None:
+                        # these signatures report the *destination's* new
+                        # value; without a destination there is none
+                        continue
+                    if len(calls) != want:
+                        ctx.violation(
+                            "C16:link-report:%d-args:%s" % (nargs, start),
+                            "%r with a %d-argument handler: re-assigning "
+                            "the link to %s called the handler %d time(s), "
+                            "observe reports it %d time(s)" % (
+                                name, nargs, "None" if new is None else
+                                "an object", len(calls), want), history=hist)
+                        break
+                    if want:
+                        ctx.outcome("link-reported")
+                else:
+                    root.on_trait_change(h, name, remove=True)
+                    root.observe(oh, name.strip(), remove=True)
+                    calls.clear()
+                    root.child = n2
+                    n2.value += 1
+                    if calls:
+                        ctx.violation(
+                            "C16:link-report:%d-args:after-removal" % nargs,
+                            "%r: handler still called (%r) after its removal "
+                            "under the same name" % (name, calls),
+                            history=hist)
+                    else:
+                        ctx.outcome("after-removal-silent")
+
+
 UI_Q = []
 
 
@@ -841,6 +923,7 @@ def run_shard(ctx, shard, tier):
         return
     if pair == "__signature__":
         signature_cells(ctx)
+        link_report_cells(ctx)
         ctx.depth_completed = 1
         return
     evs = menu(pair)
@@ -876,6 +959,11 @@ def replay(rec):
     from mc.ctx import Ctx
     ctx = Ctx("C16", None, "quick", 0)
     c = rec.get("case") or rec
+    if "link_report" in c:
+        link_report_cells(ctx)
+        for v in ctx.violations.values():
+            print("  violation:", v["sig"], v["msg"])
+        return not ctx.violations
     if "signature" in c:
         signature_cells(ctx)
         for v in ctx.violations.values():
